@@ -1,3 +1,909 @@
-//! placeholder
+//! C03 — inbound decoding is faithful, chunking-invariant and robust to hostile bytes.
+//!
+//! (a) FAITHFULNESS: the independent reference ENCODER emits every server->client packet (every legal
+//!     reason code, property presence products, every property permutation up to a size, all ack forms,
+//!     boundary lengths); the library's real incremental decoder (facade `verif::decode`) must return
+//!     exactly that content.
+//! (b) CHUNKING INVARIANCE: streams of 1..3 packets under all 1-cut / 2-cut partitions, 1-byte reads,
+//!     uniform chunk sizes and, for short streams, all 2^(n-1) partitions.
+//! (c) HOSTILE BYTES: all short byte strings, all single-byte substitutions and truncations of a base set,
+//!     judged for no-panic / chunking invariance and against the strict reference decoder.
+//! (d) SIZE RULE: an over-limit packet is rejected by the time the last fixed-header byte is fed.
+
+use crate::codec::gen::*;
 use crate::common::*;
-pub fn run(tier: Tier) -> i32 { let _ = tier; eprintln!("not implemented"); 2 }
+use crate::refcodec::{self, EncodeOpts};
+use gneiss_mqtt::verif;
+use gneiss_mqtt::verif::*;
+use rayon::prelude::*;
+use serde_json::{json, Value};
+use std::collections::{BTreeMap, HashSet};
+use std::sync::Mutex;
+
+const NO_LIMIT: u32 = 268_435_460;
+const LENS_IN: [usize; 7] = [0, 1, 127, 128, 16383, 16384, 65535];
+
+struct Ctx {
+    findings: Findings,
+    distinct: DistinctSet,
+    samples: Mutex<Vec<Value>>,
+    notes: Mutex<BTreeMap<String, u64>>,
+}
+
+/// Per-thread accumulator (merged with `reduce`): keeps the hot loops free of shared writes.
+#[derive(Default)]
+struct Local {
+    executions: u64,
+    chunks_fed: u64,
+    states: u64,
+    evaluations: u64,
+    distinct: HashSet<u64>,
+    counts: BTreeMap<&'static str, u64>,
+    lenient: BTreeMap<String, u64>,
+    waits: BTreeMap<String, u64>,
+}
+
+impl Local {
+    fn add(&mut self, key: &'static str, n: u64) { *self.counts.entry(key).or_insert(0) += n; }
+    fn merge(mut self, other: Local) -> Local {
+        self.executions += other.executions; self.chunks_fed += other.chunks_fed; self.states += other.states; self.evaluations += other.evaluations;
+        if self.distinct.len() < other.distinct.len() { let mut o = other.distinct; o.extend(self.distinct.drain()); self.distinct = o; } else { self.distinct.extend(other.distinct); }
+        for (k, v) in other.counts { *self.counts.entry(k).or_insert(0) += v; }
+        for (k, v) in other.lenient { *self.lenient.entry(k).or_insert(0) += v; }
+        for (k, v) in other.waits { *self.waits.entry(k).or_insert(0) += v; }
+        self
+    }
+}
+
+fn split<'a>(bytes: &'a [u8], cuts: &[usize]) -> Vec<&'a [u8]> {
+    let mut out = Vec::with_capacity(cuts.len() + 1);
+    let mut last = 0usize;
+    for &cut in cuts { out.push(&bytes[last..cut]); last = cut; }
+    out.push(&bytes[last..]);
+    out
+}
+
+fn ones(bytes: &[u8]) -> Vec<&[u8]> { bytes.chunks(1).collect() }
+
+/// One execution of the library's decoder.  None = it panicked (reported under C11).
+fn lib_decode(ctx: &Ctx, local: &mut Local, v311: bool, max: u32, chunks: &[&[u8]], index: u64) -> Option<DecodeOutcome> {
+    local.executions += 1;
+    match guarded(|| verif::decode(v311, max, chunks)) {
+        Ok(outcome) => {
+            local.chunks_fed += outcome.chunks_consumed as u64;
+            let nontrivial = !outcome.packets.is_empty() || outcome.error.is_some();
+            if nontrivial { local.distinct.insert(hash64(&(v311, &outcome.packets, outcome.error))); }
+            Some(outcome)
+        }
+        Err(panic) => {
+            local.add("library_panics", 1);
+            let stream: Vec<u8> = chunks.concat();
+            let sizes: Vec<usize> = chunks.iter().map(|c| c.len()).collect();
+            ctx.findings.simple("C11", &format!("panic {} in decode", panic_location(&panic)), (stream.len(), index), || {
+                (format!("decoder panicked on {} (mqtt311={}, chunk sizes {:?}): {}", hex(&stream, 64), v311, clip(&format!("{:?}", sizes), 120), panic), json!({"kind": "codec-decode", "mqtt311": v311, "maximum_packet_size": max, "stream_hex": hex(&stream, 4096), "chunk_sizes": sizes, "panic": panic}))
+            });
+            None
+        }
+    }
+}
+
+fn same(a: &DecodeOutcome, b: &DecodeOutcome) -> bool { a.error == b.error && a.packets == b.packets }
+
+/// Runs `chunks` and compares with the unsplit result; marks the read boundaries that were reached.
+fn check_chunking(ctx: &Ctx, local: &mut Local, v311: bool, stream: &[u8], whole: &DecodeOutcome, chunks: &[&[u8]], kind: &'static str, index: u64, visited: Option<&mut Vec<bool>>) {
+    let Some(outcome) = lib_decode(ctx, local, v311, NO_LIMIT, chunks, index) else { return; };
+    if let Some(visited) = visited {
+        let mut position = 0usize;
+        for chunk in chunks.iter().take(outcome.chunks_consumed) { position += chunk.len(); if let Some(slot) = visited.get_mut(position) { *slot = true; } }
+    }
+    local.add("partitions_checked", 1);
+    if !same(whole, &outcome) {
+        let what = if whole.error != outcome.error { "error verdict" } else { "decoded packets" };
+        let sizes: Vec<usize> = chunks.iter().map(|c| c.len()).collect();
+        ctx.findings.simple("C03", &format!("chunking-dependent {} for {} stream", what, kind), (stream.len(), index), || {
+            (format!("stream {} (mqtt311={}): unsplit -> {} packet(s), error {:?}; chunk sizes {} -> {} packet(s), error {:?}", hex(stream, 48), v311, whole.packets.len(), whole.error, clip(&format!("{:?}", sizes), 100), outcome.packets.len(), outcome.error),
+             json!({"kind": "codec-decode", "mqtt311": v311, "maximum_packet_size": NO_LIMIT, "stream_hex": hex(stream, 4096), "chunk_sizes": sizes, "expected": format!("{} packets, error {:?}", whole.packets.len(), whole.error), "got": format!("{} packets, error {:?}", outcome.packets.len(), outcome.error)}))
+        });
+    }
+}
+
+// ---------------------------------------------------------------------------------------------
+// diagnosis of a rejection / difference (stable category for the signature)
+// ---------------------------------------------------------------------------------------------
+
+fn reason_name(code: u8) -> &'static str {
+    match code {
+        0x00 => "Success", 0x01 => "Granted QoS 1", 0x02 => "Granted QoS 2", 0x04 => "Disconnect with Will Message", 0x10 => "No matching subscribers", 0x11 => "No subscription existed",
+        0x18 => "Continue authentication", 0x19 => "Re-authenticate", 0x80 => "Unspecified error", 0x81 => "Malformed Packet", 0x82 => "Protocol Error", 0x83 => "Implementation specific error",
+        0x84 => "Unsupported Protocol Version", 0x85 => "Client Identifier not valid", 0x86 => "Bad User Name or Password", 0x87 => "Not authorized", 0x88 => "Server unavailable", 0x89 => "Server busy",
+        0x8A => "Banned", 0x8B => "Server shutting down", 0x8C => "Bad authentication method", 0x8D => "Keep Alive timeout", 0x8E => "Session taken over", 0x8F => "Topic Filter invalid",
+        0x90 => "Topic Name invalid", 0x91 => "Packet Identifier in use", 0x92 => "Packet Identifier not found", 0x93 => "Receive Maximum exceeded", 0x94 => "Topic Alias invalid", 0x95 => "Packet too large",
+        0x96 => "Message rate too high", 0x97 => "Quota exceeded", 0x98 => "Administrative action", 0x99 => "Payload format invalid", 0x9A => "Retain not supported", 0x9B => "QoS not supported",
+        0x9C => "Use another server", 0x9D => "Server moved", 0x9E => "Shared Subscriptions not supported", 0x9F => "Connection rate exceeded", 0xA0 => "Maximum connect time",
+        0xA1 => "Subscription Identifiers not supported", 0xA2 => "Wildcard Subscriptions not supported", _ => "unnamed",
+    }
+}
+
+fn reason_codes_of(p: &Pkt) -> Vec<u8> {
+    match p {
+        Pkt::Connack(c) => vec![c.reason_code],
+        Pkt::Puback(a) | Pkt::Pubrec(a) | Pkt::Pubrel(a) | Pkt::Pubcomp(a) => vec![a.reason_code],
+        Pkt::Suback(a) | Pkt::Unsuback(a) => a.reason_codes.clone(),
+        Pkt::Disconnect(d) => vec![d.reason_code],
+        _ => vec![],
+    }
+}
+
+fn minimal_with_code(p: &Pkt, code: u8) -> Pkt {
+    match p {
+        Pkt::Connack(_) => Pkt::Connack(VConnack { reason_code: code, ..Default::default() }),
+        Pkt::Puback(_) => Pkt::Puback(VAck { packet_id: 1, reason_code: code, ..Default::default() }),
+        Pkt::Pubrec(_) => Pkt::Pubrec(VAck { packet_id: 1, reason_code: code, ..Default::default() }),
+        Pkt::Pubrel(_) => Pkt::Pubrel(VAck { packet_id: 1, reason_code: code, ..Default::default() }),
+        Pkt::Pubcomp(_) => Pkt::Pubcomp(VAck { packet_id: 1, reason_code: code, ..Default::default() }),
+        Pkt::Suback(_) => Pkt::Suback(VMultiAck { packet_id: 1, reason_codes: vec![code], ..Default::default() }),
+        Pkt::Unsuback(_) => Pkt::Unsuback(VMultiAck { packet_id: 1, reason_codes: vec![code], ..Default::default() }),
+        Pkt::Disconnect(_) => Pkt::Disconnect(VDisconnect { reason_code: code, ..Default::default() }),
+        other => other.clone(),
+    }
+}
+
+/// Does the library decode the reference encoding of `p` (with `opts`) to `p`?
+fn accepts(ctx: &Ctx, local: &mut Local, p: &Pkt, v311: bool, opts: &EncodeOpts) -> Option<bool> {
+    let bytes = refcodec::encode_with(p, v311, opts).ok()?;
+    let outcome = lib_decode(ctx, local, v311, NO_LIMIT, &[&bytes], 0)?;
+    let expected = match refcodec::decode_one(&bytes, v311) { Ok((e, _)) => e, Err(_) => return None };
+    Some(outcome.error.is_none() && outcome.packets.len() == 1 && refcodec::project(&outcome.packets[0], v311) == refcodec::project(&expected, v311))
+}
+
+/// Packets with exactly one optional property of `p` kept (name, packet).
+fn single_property_variants(p: &Pkt) -> Vec<(&'static str, Pkt)> {
+    let mut out: Vec<(&'static str, Pkt)> = Vec::new();
+    match p {
+        Pkt::Connack(c) => {
+            let base = VConnack { session_present: c.session_present, reason_code: c.reason_code, ..Default::default() };
+            macro_rules! one { ($name:expr, $field:ident) => { if c.$field.is_some() { out.push(($name, Pkt::Connack(VConnack { $field: c.$field.clone(), ..base.clone() }))); } }; }
+            one!("session expiry interval", session_expiry); one!("receive maximum", receive_maximum); one!("maximum qos", maximum_qos); one!("retain available", retain_available);
+            one!("maximum packet size", maximum_packet_size); one!("assigned client identifier", assigned_client_identifier); one!("topic alias maximum", topic_alias_maximum);
+            one!("reason string", reason_string); one!("user property", user_properties); one!("wildcard subscription available", wildcard_subscriptions_available);
+            one!("subscription identifiers available", subscription_identifiers_available); one!("shared subscription available", shared_subscriptions_available);
+            one!("server keep alive", server_keep_alive); one!("response information", response_information); one!("server reference", server_reference);
+            one!("authentication method", authentication_method); one!("authentication data", authentication_data);
+        }
+        Pkt::Publish(m) => {
+            let base = VPublish { packet_id: m.packet_id, topic: if m.topic.is_empty() { "t".into() } else { m.topic.clone() }, qos: m.qos, dup: m.dup, retain: m.retain, payload: m.payload.clone(), ..Default::default() };
+            macro_rules! one { ($name:expr, $field:ident) => { if m.$field.is_some() { out.push(($name, Pkt::Publish(VPublish { $field: m.$field.clone(), ..base.clone() }))); } }; }
+            one!("payload format indicator", payload_format); one!("message expiry interval", message_expiry); one!("topic alias", topic_alias); one!("response topic", response_topic);
+            one!("correlation data", correlation_data); one!("subscription identifier", subscription_identifiers); one!("content type", content_type); one!("user property", user_properties);
+        }
+        Pkt::Puback(a) | Pkt::Pubrec(a) | Pkt::Pubrel(a) | Pkt::Pubcomp(a) => {
+            let wrap = |x: VAck| match p { Pkt::Puback(_) => Pkt::Puback(x), Pkt::Pubrec(_) => Pkt::Pubrec(x), Pkt::Pubrel(_) => Pkt::Pubrel(x), _ => Pkt::Pubcomp(x) };
+            let base = VAck { packet_id: a.packet_id, reason_code: a.reason_code, ..Default::default() };
+            if a.reason_string.is_some() { out.push(("reason string", wrap(VAck { reason_string: a.reason_string.clone(), ..base.clone() }))); }
+            if a.user_properties.is_some() { out.push(("user property", wrap(VAck { user_properties: a.user_properties.clone(), ..base.clone() }))); }
+        }
+        Pkt::Suback(a) | Pkt::Unsuback(a) => {
+            let wrap = |x: VMultiAck| if matches!(p, Pkt::Suback(_)) { Pkt::Suback(x) } else { Pkt::Unsuback(x) };
+            let base = VMultiAck { packet_id: a.packet_id, reason_codes: a.reason_codes.clone(), ..Default::default() };
+            if a.reason_string.is_some() { out.push(("reason string", wrap(VMultiAck { reason_string: a.reason_string.clone(), ..base.clone() }))); }
+            if a.user_properties.is_some() { out.push(("user property", wrap(VMultiAck { user_properties: a.user_properties.clone(), ..base.clone() }))); }
+        }
+        Pkt::Disconnect(d) => {
+            let base = VDisconnect { reason_code: d.reason_code, ..Default::default() };
+            if d.session_expiry.is_some() { out.push(("session expiry interval", Pkt::Disconnect(VDisconnect { session_expiry: d.session_expiry, ..base.clone() }))); }
+            if d.reason_string.is_some() { out.push(("reason string", Pkt::Disconnect(VDisconnect { reason_string: d.reason_string.clone(), ..base.clone() }))); }
+            if d.server_reference.is_some() { out.push(("server reference", Pkt::Disconnect(VDisconnect { server_reference: d.server_reference.clone(), ..base.clone() }))); }
+            if d.user_properties.is_some() { out.push(("user property", Pkt::Disconnect(VDisconnect { user_properties: d.user_properties.clone(), ..base.clone() }))); }
+        }
+        _ => {}
+    }
+    out
+}
+
+/// Stable signature for "the reference says this is the well-formed packet `p`, the library disagrees".
+fn diagnose(ctx: &Ctx, local: &mut Local, p: &Pkt, v311: bool, opts: &EncodeOpts, got: Option<&Pkt>) -> String {
+    let kind = tv(p, v311);
+    let canonical = EncodeOpts::default();
+    if !v311 || matches!(p, Pkt::Suback(_) | Pkt::Connack(_)) {
+        for code in reason_codes_of(p) {
+            if accepts(ctx, local, &minimal_with_code(p, code), v311, &canonical) == Some(false) {
+                return format!("{} reason code {} ({}) rejected", kind, code, reason_name(code));
+            }
+        }
+    }
+    if opts.property_order.is_some() && accepts(ctx, local, p, v311, &EncodeOpts { property_order: None, ack_form: opts.ack_form }) == Some(true) {
+        return format!("well-formed {} rejected: non-canonical property order", kind);
+    }
+    if opts.ack_form != 0 && accepts(ctx, local, p, v311, &EncodeOpts { property_order: opts.property_order.clone(), ack_form: 0 }) == Some(true) {
+        let form = match opts.ack_form { 1 => "reason code present, property length omitted", 2 => "reason code and property length always present", _ => "shortest legal form" };
+        return format!("well-formed {} rejected: acknowledgement form '{}'", kind, form);
+    }
+    for (name, variant) in single_property_variants(p) {
+        if accepts(ctx, local, &variant, v311, &canonical) == Some(false) { return format!("well-formed {} rejected: property {}", kind, name); }
+    }
+    match got {
+        Some(got) => format!("{} decoded with different content: {}", kind, first_diff_field(&refcodec::project(p, v311), &refcodec::project(got, v311)).replace('_', " ")),
+        None => format!("well-formed {} rejected: unclassified (see replay)", kind),
+    }
+}
+
+// ---------------------------------------------------------------------------------------------
+// judgement of one unsplit result against the strict reference decoder
+// ---------------------------------------------------------------------------------------------
+
+fn judge(ctx: &Ctx, local: &mut Local, stream: &[u8], v311: bool, whole: &DecodeOutcome, kind: &'static str, index: u64) {
+    let (ref_packets, ends, tail) = refcodec::decode_stream(stream, v311);
+    let report = |local: &mut Local, signature: String, what: String| {
+        ctx.findings.simple("C03", &signature, (stream.len(), index), || {
+            (format!("{} stream {} (mqtt311={}): {}", kind, hex(stream, 64), v311, what),
+             json!({"kind": "codec-decode", "mqtt311": v311, "maximum_packet_size": NO_LIMIT, "stream_hex": hex(stream, 4096), "chunk_sizes": [stream.len()], "expected": clip(&format!("{:?}", ref_packets), 1500), "got": clip(&format!("{:?} error {:?}", whole.packets, whole.error), 1500)}))
+        });
+        local.add("violations_seen", 1);
+    };
+    for (k, ref_packet) in ref_packets.iter().enumerate() {
+        if !is_server_to_client(type_number(ref_packet)) { local.add("streams_with_client_to_server_packet_not_judged", 1); return; }
+        match whole.packets.get(k) {
+            Some(lib_packet) if refcodec::project(lib_packet, v311) == refcodec::project(ref_packet, v311) => { local.add("well_formed_packets_agreed", 1); }
+            Some(lib_packet) => {
+                let signature = diagnose(ctx, local, ref_packet, v311, &EncodeOpts::default(), Some(lib_packet));
+                report(local, signature, format!("packet #{} decoded as {} but the reference decodes {}", k, clip(&dbg_short(lib_packet), 400), clip(&dbg_short(ref_packet), 400)));
+                return;
+            }
+            None => {
+                let start = if k == 0 { 0 } else { ends[k - 1] };
+                let wire = &stream[start..ends[k]];
+                let mut signature = diagnose(ctx, local, ref_packet, v311, &EncodeOpts::default(), None);
+                if signature.ends_with("unclassified (see replay)") {
+                    // the canonical re-encoding is accepted? then it is this particular wire form
+                    if accepts(ctx, local, ref_packet, v311, &EncodeOpts::default()) == Some(true) { signature = format!("well-formed {} rejected: wire form accepted by the reference (not the canonical encoding)", tv(ref_packet, v311)); }
+                }
+                if whole.error.is_none() { signature = format!("{} [decoder keeps waiting]", signature); }
+                report(local, signature, format!("well-formed packet #{} ({}) = {} not delivered; library error {:?}", k, hex(wire, 48), clip(&dbg_short(ref_packet), 400), whole.error));
+                return;
+            }
+        }
+    }
+    match tail {
+        Ok(0) => {
+            if whole.error.is_some() || whole.packets.len() != ref_packets.len() {
+                report(local, "error or extra packet after a stream of well-formed packets".to_string(), format!("library: {} packets, error {:?}; reference: {} packets, clean end", whole.packets.len(), whole.error, ref_packets.len()));
+            }
+        }
+        Ok(_) => {
+            if whole.packets.len() > ref_packets.len() { report(local, "packet delivered from an incomplete tail".to_string(), format!("library delivered {} packets, only {} are complete", whole.packets.len(), ref_packets.len())); }
+            else if whole.error.is_some() { local.add("incomplete_tail_rejected_early", 1); } else { local.add("incomplete_tail_waits", 1); }
+        }
+        Err(reason) => {
+            let category = norm_reason(&reason);
+            if whole.packets.len() > ref_packets.len() { *local.lenient.entry(category).or_insert(0) += 1; }
+            else if whole.error.is_none() { *local.waits.entry(category).or_insert(0) += 1; }
+            else { local.add("malformed_rejected_by_both", 1); }
+        }
+    }
+}
+
+// ---------------------------------------------------------------------------------------------
+// (a) faithfulness
+// ---------------------------------------------------------------------------------------------
+
+struct Case { pkt: Pkt, v311: bool, opts: EncodeOpts, legal: bool, sweep: &'static str }
+
+fn check_faithful(ctx: &Ctx, local: &mut Local, case: &Case, index: u64) {
+    local.evaluations += 1;
+    let bytes = match refcodec::encode_with(&case.pkt, case.v311, &case.opts) { Ok(b) => b, Err(_) => { local.add("not_encodable_by_reference", 1); return; } };
+    let chunks: [&[u8]; 1] = [&bytes];
+    let Some(outcome) = lib_decode(ctx, local, case.v311, NO_LIMIT, &chunks, index) else { return; };
+    local.states += 2;
+    if !case.legal { local.add("illegal_values_run_for_no_panic_only", 1); return; }
+    // the wire order of repeated properties is content: the expectation is what the reference decoder reads back
+    let expected = match refcodec::decode_one(&bytes, case.v311) {
+        Ok((p, n)) if n == bytes.len() => p,
+        _ => { local.add("oracle_encoder_decoder_disagree", 1); *ctx.notes.lock().unwrap().entry(format!("reference decoder does not accept reference encoding: {} {}", case.sweep, clip(&dbg_short(&case.pkt), 200))).or_insert(0) += 1; return; }
+    };
+    local.add("faithfulness_cases_judged", 1);
+    if case.opts.property_order.is_some() { local.add("permutations_checked", 1); }
+    let ok = outcome.error.is_none() && outcome.packets.len() == 1 && refcodec::project(&outcome.packets[0], case.v311) == refcodec::project(&expected, case.v311);
+    if ok {
+        if index % 257 == 0 { let mut samples = ctx.samples.lock().unwrap(); if samples.len() < 16 && samples.iter().filter(|s| s["sweep"] == json!(case.sweep)).count() < 2 { samples.push(json!({"part": "faithfulness", "sweep": case.sweep, "mqtt311": case.v311, "packet": clip(&dbg_short(&case.pkt), 500), "property_order": case.opts.property_order, "ack_form": case.opts.ack_form, "wire_hex": hex(&bytes, 64)})); } }
+        return;
+    }
+    let got = if outcome.packets.len() == 1 && outcome.error.is_none() { Some(&outcome.packets[0]) } else { None };
+    let signature = diagnose(ctx, local, &case.pkt, case.v311, &case.opts, got);
+    ctx.findings.simple("C03", &signature, (bytes.len(), index), || {
+        (format!("[{}] {} (mqtt311={}, order {:?}, ack_form {}) encoded by the reference as {} -> library: {} packet(s), error {:?}", case.sweep, clip(&dbg_short(&case.pkt), 500), case.v311, case.opts.property_order, case.opts.ack_form, hex(&bytes, 48), outcome.packets.len(), outcome.error),
+         json!({"kind": "codec-decode", "sweep": case.sweep, "mqtt311": case.v311, "maximum_packet_size": NO_LIMIT, "packet": dbg_short(&case.pkt), "property_order": case.opts.property_order, "ack_form": case.opts.ack_form, "stream_hex": hex(&bytes, 4096), "chunk_sizes": [bytes.len()], "expected": dbg_short(&expected), "got": clip(&format!("{:?} error {:?}", outcome.packets, outcome.error), 2000)}))
+    });
+}
+
+fn run_cases(ctx: &Ctx, base: &mut u64, n: u64, make: impl Fn(u64) -> Vec<Case> + Sync) -> Local {
+    let start = *base;
+    *base += n * 1024;
+    (0..n).into_par_iter().fold(Local::default, |mut local, i| { for (k, case) in make(i).iter().enumerate() { check_faithful(ctx, &mut local, case, start + i * 1024 + k as u64); } local }).reduce(Local::default, Local::merge)
+}
+
+const CONNACK_PROPS: u32 = 17;
+fn connack_with(mask: u32, session_present: bool, reason_code: u8) -> VConnack {
+    let on = |bit: u32| mask & (1 << bit) != 0;
+    VConnack {
+        session_present, reason_code,
+        session_expiry: on(0).then_some(0x01020304), receive_maximum: on(1).then_some(0x0506), maximum_qos: on(2).then_some(1), retain_available: on(3).then_some(false),
+        maximum_packet_size: on(4).then_some(0x0708090A), assigned_client_identifier: on(5).then(|| "assigned-é".to_string()), topic_alias_maximum: on(6).then_some(0x0B0C),
+        reason_string: on(7).then(|| "reason €".to_string()), user_properties: if on(8) { ups(2, 1) } else { None }, wildcard_subscriptions_available: on(9).then_some(true),
+        subscription_identifiers_available: on(10).then_some(false), shared_subscriptions_available: on(11).then_some(true), server_keep_alive: on(12).then_some(0x0D0E),
+        response_information: on(13).then(|| "resp/info".to_string()), server_reference: on(14).then(|| "other:1883".to_string()), authentication_method: on(15).then(|| "SCRAM".to_string()),
+        authentication_data: on(16).then(|| b(6)),
+    }
+}
+
+const SUB_ID_VARIANTS: [Option<&[u32]>; 4] = [None, Some(&[1]), Some(&[127, 128]), Some(&[268_435_455])];
+const PUBLISH_PROP_COMBOS: u64 = 3 * 2 * 2 * 2 * 2 * 4 * 2 * 4;
+fn publish_with(combo: u64, qos: u8, dup: bool, retain: bool, payload: usize) -> VPublish {
+    let mut r = Radix(combo);
+    VPublish {
+        packet_id: if qos > 0 { 0x1122 } else { 0 }, topic: "s/é/t".into(), qos, dup, retain, payload: if payload == 0 { None } else { Some(b(payload)) },
+        payload_format: [None, Some(0u8), Some(1u8)][r.take(3) as usize], message_expiry: r.bit().then_some(0x31323334), topic_alias: r.bit().then_some(0x0102),
+        response_topic: r.bit().then(|| "re/€".to_string()), correlation_data: r.bit().then(|| b(5)), subscription_identifiers: SUB_ID_VARIANTS[r.take(4) as usize].map(|v| v.to_vec()),
+        content_type: r.bit().then(|| "ct/é".to_string()), user_properties: ups(r.take(4) as usize, 1),
+    }
+}
+
+fn ack_of(kind: u8, a: VAck) -> Pkt { match kind { 4 => Pkt::Puback(a), 5 => Pkt::Pubrec(a), 6 => Pkt::Pubrel(a), _ => Pkt::Pubcomp(a) } }
+
+fn permutations(n: usize) -> Vec<Vec<usize>> {
+    fn rec(current: &mut Vec<usize>, used: &mut Vec<bool>, n: usize, out: &mut Vec<Vec<usize>>) {
+        if current.len() == n { out.push(current.clone()); return; }
+        for i in 0..n { if !used[i] { used[i] = true; current.push(i); rec(current, used, n, out); current.pop(); used[i] = false; } }
+    }
+    let mut out = Vec::new();
+    rec(&mut Vec::new(), &mut vec![false; n], n, &mut out);
+    out
+}
+
+/// every permutation when the packet has at most `limit` property entries, else all rotations and the reversal
+fn orders_for(p: &Pkt, limit: usize) -> Vec<Vec<usize>> {
+    let k = refcodec::property_count(p);
+    if k <= 1 { return vec![]; }
+    if k <= limit { return permutations(k).into_iter().skip(1).collect(); }
+    let mut out: Vec<Vec<usize>> = (1..k).map(|shift| (0..k).map(|i| (i + shift) % k).collect()).collect();
+    out.push((0..k).rev().collect());
+    out
+}
+
+fn legal_codes(packet_type: u8, v311: bool) -> Vec<u8> {
+    if packet_type == 14 && !v311 { refcodec::disconnect_codes_server() } else { refcodec::legal_reason_codes(packet_type, v311) }
+}
+
+fn faithfulness(ctx: &Ctx, tier: Tier) -> Local {
+    let thorough = tier == Tier::Thorough;
+    let limit = if thorough { 6 } else { 5 };
+    let mut base = 0u64;
+    let mut total = Local::default();
+
+    // ---- every reason code 0..=255 of every type that carries one, both versions, every ack form, with / without a property
+    let typed: [u8; 8] = [2, 4, 5, 6, 7, 9, 11, 14];
+    let codes = run_cases(ctx, &mut base, 8 * 256 * 2, |i| {
+        let mut r = Radix(i);
+        let packet_type = typed[r.take(8) as usize];
+        let code = r.take(256) as u8;
+        let v311 = r.bit();
+        let legal_list = legal_codes(packet_type, v311);
+        let mut out = Vec::new();
+        let sweep = "reason codes";
+        match packet_type {
+            2 => {
+                if v311 {
+                    // `reason_code` holds the MQTT 5 equivalent; raw 3.1.1 return codes without one cannot be built through the reference encoder (raw bytes are covered by the hostile sweeps)
+                    if let Some(v5) = refcodec::connack_311_to_5(code) { for sp in [false, true] { out.push(Case { pkt: Pkt::Connack(VConnack { session_present: sp && code == 0, reason_code: v5, ..Default::default() }), v311, opts: EncodeOpts::default(), legal: legal_list.contains(&code), sweep }); } }
+                } else {
+                    let legal = legal_list.contains(&code);
+                    out.push(Case { pkt: Pkt::Connack(connack_with(0, code == 0, code)), v311, opts: EncodeOpts::default(), legal, sweep });
+                    out.push(Case { pkt: Pkt::Connack(connack_with(0b1_1000_0000, false, code)), v311, opts: EncodeOpts::default(), legal, sweep });
+                }
+            }
+            4..=7 | 14 => {
+                let legal = if v311 { code == 0 } else { legal_list.contains(&code) };
+                if v311 && code != 0 { return out; }
+                for form in 0..4u8 {
+                    for with_properties in [false, true] {
+                        let (reason_string, user_properties) = if with_properties { (Some("why é".to_string()), ups(1, 1)) } else { (None, None) };
+                        let pkt = if packet_type == 14 { Pkt::Disconnect(VDisconnect { reason_code: code, session_expiry: None, reason_string, user_properties, server_reference: None }) } else { ack_of(packet_type, VAck { packet_id: 0x0A0B, reason_code: code, reason_string, user_properties }) };
+                        out.push(Case { pkt, v311, opts: EncodeOpts { property_order: None, ack_form: form }, legal, sweep });
+                        if v311 { break; }
+                    }
+                    if v311 { break; }
+                }
+            }
+            _ => {
+                if v311 && packet_type == 11 { if code == 0 { out.push(Case { pkt: Pkt::Unsuback(VMultiAck { packet_id: 7, ..Default::default() }), v311, opts: EncodeOpts::default(), legal: true, sweep }); } return out; }
+                let legal = legal_list.contains(&code);
+                let filler = 0u8;
+                for count in 1..=3usize {
+                    for position in 0..count {
+                        let mut reason_codes = vec![filler; count];
+                        reason_codes[position] = code;
+                        let ack = VMultiAck { packet_id: 0x0C0D, reason_string: None, user_properties: None, reason_codes };
+                        out.push(Case { pkt: if packet_type == 9 { Pkt::Suback(ack) } else { Pkt::Unsuback(ack) }, v311, opts: EncodeOpts::default(), legal, sweep });
+                    }
+                }
+            }
+        }
+        out
+    });
+    let mut reason_codes_checked = 0u64;
+    for packet_type in typed { for v311 in [false, true] { reason_codes_checked += legal_codes(packet_type, v311).len() as u64; } }
+    total = total.merge(codes);
+    total.add("reason_codes_checked", reason_codes_checked);
+    total.add("reason_code_values_run", 8 * 256 * 2);
+
+    // ---- CONNACK presence: thorough = full 2^17; quick = none, each alone, all pairs, all
+    let masks: Vec<u32> = if thorough { (0..(1u32 << CONNACK_PROPS)).collect() } else {
+        let mut m = vec![0u32, (1 << CONNACK_PROPS) - 1];
+        for a in 0..CONNACK_PROPS { m.push(1 << a); for b2 in (a + 1)..CONNACK_PROPS { m.push(1 << a | 1 << b2); } }
+        m
+    };
+    total = total.merge(run_cases(ctx, &mut base, masks.len() as u64, |i| {
+        let mask = masks[i as usize];
+        vec![Case { pkt: Pkt::Connack(connack_with(mask, mask & 1 == 1, 0)), v311: false, opts: EncodeOpts::default(), legal: true, sweep: "connack property presence" },
+             Case { pkt: Pkt::Connack(connack_with(mask, false, 0x87)), v311: false, opts: EncodeOpts::default(), legal: true, sweep: "connack property presence" }]
+    }));
+    total.add("connack_presence_masks", masks.len() as u64);
+
+    // ---- CONNACK permutations: all subsets of at most 3 properties, windows of 4..limit consecutive properties, everything
+    let mut perm_masks: Vec<u32> = Vec::new();
+    for mask in 0..(1u32 << CONNACK_PROPS) { if mask.count_ones() >= 2 && mask.count_ones() <= 3 { perm_masks.push(mask); } }
+    perm_masks.push(1 << 8);
+    for width in 4..=limit as u32 { for start in 0..=(CONNACK_PROPS - width) { perm_masks.push(((1u32 << width) - 1) << start); } }
+    perm_masks.push((1 << CONNACK_PROPS) - 1);
+    total = total.merge(run_cases(ctx, &mut base, perm_masks.len() as u64, |i| {
+        let pkt = Pkt::Connack(connack_with(perm_masks[i as usize], false, 0));
+        orders_for(&pkt, limit).into_iter().map(|order| Case { pkt: pkt.clone(), v311: false, opts: EncodeOpts { property_order: Some(order), ack_form: 0 }, legal: true, sweep: "connack property permutations" }).collect()
+    }));
+
+    // ---- PUBLISH: full product of properties x qos/dup/retain x payload sizes, both versions (canonical order)
+    let payloads: [usize; 6] = [0, 1, 127, 128, 16383, 16384];
+    let flags: [(u8, bool); 5] = [(0, false), (1, false), (1, true), (2, false), (2, true)];
+    total = total.merge(run_cases(ctx, &mut base, PUBLISH_PROP_COMBOS * 5 * 2 * 6, |i| {
+        let mut r = Radix(i);
+        let combo = r.take(PUBLISH_PROP_COMBOS);
+        let (qos, dup) = flags[r.take(5) as usize];
+        let retain = r.bit();
+        let payload = payloads[r.take(6) as usize];
+        let m = publish_with(combo, qos, dup, retain, payload);
+        let mut out = vec![Case { pkt: Pkt::Publish(m.clone()), v311: false, opts: EncodeOpts::default(), legal: true, sweep: "publish product" }];
+        if combo == 0 || combo == PUBLISH_PROP_COMBOS - 1 { out.push(Case { pkt: Pkt::Publish(m), v311: true, opts: EncodeOpts::default(), legal: true, sweep: "publish product" }); }
+        out
+    }));
+    // topic alias forms: alias with an empty topic, alias boundary values
+    total = total.merge(run_cases(ctx, &mut base, 3 * 2 * 3, |i| {
+        let mut r = Radix(i);
+        let alias = [1u16, 255, 65535][r.take(3) as usize];
+        let topic = if r.bit() { String::new() } else { "a/b".to_string() };
+        let qos = r.take(3) as u8;
+        vec![Case { pkt: Pkt::Publish(VPublish { packet_id: if qos > 0 { 9 } else { 0 }, topic, qos, topic_alias: Some(alias), payload: Some(b(3)), ..Default::default() }), v311: false, opts: EncodeOpts::default(), legal: true, sweep: "publish topic alias" }]
+    }));
+    // PUBLISH permutations
+    total = total.merge(run_cases(ctx, &mut base, PUBLISH_PROP_COMBOS, |i| {
+        let pkt = Pkt::Publish(publish_with(i, 1, false, false, 3));
+        orders_for(&pkt, limit).into_iter().map(|order| Case { pkt: pkt.clone(), v311: false, opts: EncodeOpts { property_order: Some(order), ack_form: 0 }, legal: true, sweep: "publish property permutations" }).collect()
+    }));
+
+    // ---- acknowledgements, SUBACK / UNSUBACK, DISCONNECT: property presence x legal codes x forms x all permutations
+    total = total.merge(run_cases(ctx, &mut base, 7 * 2 * 2 * 4, |i| {
+        let mut r = Radix(i);
+        let packet_type = [4u8, 5, 6, 7, 9, 11, 14][r.take(7) as usize];
+        let reason_string = r.bit().then(|| "rs €".to_string());
+        let server_reference = r.bit().then(|| "srv".to_string());
+        let user_properties = ups(r.take(4) as usize, 1);
+        if server_reference.is_some() && packet_type != 14 { return vec![]; }
+        let mut out = Vec::new();
+        for code in legal_codes(packet_type, false) {
+            let pkt = match packet_type {
+                14 => Pkt::Disconnect(VDisconnect { reason_code: code, session_expiry: None, reason_string: reason_string.clone(), user_properties: user_properties.clone(), server_reference: server_reference.clone() }),
+                9 | 11 => { let a = VMultiAck { packet_id: 0x0E0F, reason_string: reason_string.clone(), user_properties: user_properties.clone(), reason_codes: vec![code, 0, code] }; if packet_type == 9 { Pkt::Suback(a) } else { Pkt::Unsuback(a) } }
+                _ => ack_of(packet_type, VAck { packet_id: 0x0E0F, reason_code: code, reason_string: reason_string.clone(), user_properties: user_properties.clone() }),
+            };
+            let forms: &[u8] = if matches!(packet_type, 9 | 11) { &[0] } else { &[0, 1, 2, 3] };
+            for &form in forms {
+                out.push(Case { pkt: pkt.clone(), v311: false, opts: EncodeOpts { property_order: None, ack_form: form }, legal: true, sweep: "acknowledgement / disconnect product" });
+                if code == legal_codes(packet_type, false)[0] || form == 0 {
+                    for order in orders_for(&pkt, limit) { out.push(Case { pkt: pkt.clone(), v311: false, opts: EncodeOpts { property_order: Some(order), ack_form: form }, legal: true, sweep: "acknowledgement / disconnect permutations" }); }
+                }
+            }
+        }
+        out
+    }));
+
+    // ---- MQTT 3.1.1 forms of the simple packets
+    total = total.merge(run_cases(ctx, &mut base, 5, |i| {
+        let ids = [1u16, 2, 255, 256, 65535];
+        let id = ids[i as usize];
+        let mut out = Vec::new();
+        for t in 4..=7u8 { out.push(Case { pkt: ack_of(t, VAck { packet_id: id, ..Default::default() }), v311: true, opts: EncodeOpts::default(), legal: true, sweep: "3.1.1 simple packets" }); }
+        out.push(Case { pkt: Pkt::Unsuback(VMultiAck { packet_id: id, ..Default::default() }), v311: true, opts: EncodeOpts::default(), legal: true, sweep: "3.1.1 simple packets" });
+        out.push(Case { pkt: Pkt::Suback(VMultiAck { packet_id: id, reason_codes: vec![0, 1, 2, 0x80], ..Default::default() }), v311: true, opts: EncodeOpts::default(), legal: true, sweep: "3.1.1 simple packets" });
+        for v311 in [false, true] { out.push(Case { pkt: Pkt::Pingresp, v311, opts: EncodeOpts::default(), legal: true, sweep: "3.1.1 simple packets" }); out.push(Case { pkt: Pkt::Disconnect(VDisconnect::default()), v311, opts: EncodeOpts::default(), legal: true, sweep: "3.1.1 simple packets" }); }
+        for qos in 0..3u8 { out.push(Case { pkt: Pkt::Publish(VPublish { packet_id: if qos > 0 { id } else { 0 }, topic: "x".into(), qos, retain: qos == 1, dup: qos == 2, payload: Some(b(id as usize % 300)), ..Default::default() }), v311: true, opts: EncodeOpts::default(), legal: true, sweep: "3.1.1 simple packets" }); }
+        out
+    }));
+
+    // ---- boundary lengths of every string / binary field, one at a time
+    total = total.merge(run_cases(ctx, &mut base, (LENS_IN.len() * 3 * 26) as u64, |i| {
+        let mut r = Radix(i);
+        let len = LENS_IN[r.take(LENS_IN.len() as u64) as usize];
+        let variant = r.take(3) as u8;
+        let field = r.take(26);
+        let text = || s(len, variant);
+        let one_up_name = || Some(vec![(s(len, variant), "v".to_string())]);
+        let one_up_value = || Some(vec![("k".to_string(), s(len, variant))]);
+        let sweep = "boundary lengths";
+        let (pkt, v311) = match field {
+            0 => (Pkt::Connack(VConnack { assigned_client_identifier: Some(text()), ..Default::default() }), false),
+            1 => (Pkt::Connack(VConnack { reason_string: Some(text()), reason_code: 0x80, ..Default::default() }), false),
+            2 => (Pkt::Connack(VConnack { response_information: Some(text()), ..Default::default() }), false),
+            3 => (Pkt::Connack(VConnack { server_reference: Some(text()), reason_code: 0x9C, ..Default::default() }), false),
+            4 => (Pkt::Connack(VConnack { authentication_method: Some(text()), ..Default::default() }), false),
+            5 => (Pkt::Connack(VConnack { authentication_method: Some("m".into()), authentication_data: Some(b(len)), ..Default::default() }), false),
+            6 => (Pkt::Connack(VConnack { user_properties: one_up_name(), ..Default::default() }), false),
+            7 => (Pkt::Connack(VConnack { user_properties: one_up_value(), ..Default::default() }), false),
+            8 => (Pkt::Publish(VPublish { topic: text(), topic_alias: if len == 0 { Some(3) } else { None }, payload: Some(b(2)), ..Default::default() }), false),
+            9 => { if len == 0 { return vec![]; } (Pkt::Publish(VPublish { topic: text(), qos: 1, packet_id: 5, payload: Some(b(2)), ..Default::default() }), true) }
+            10 => (Pkt::Publish(VPublish { topic: "t".into(), response_topic: Some(text()), ..Default::default() }), false),
+            11 => (Pkt::Publish(VPublish { topic: "t".into(), correlation_data: Some(b(len)), ..Default::default() }), false),
+            12 => (Pkt::Publish(VPublish { topic: "t".into(), content_type: Some(text()), ..Default::default() }), false),
+            13 => (Pkt::Publish(VPublish { topic: "t".into(), user_properties: one_up_name(), ..Default::default() }), false),
+            14 => (Pkt::Publish(VPublish { topic: "t".into(), user_properties: one_up_value(), ..Default::default() }), false),
+            15 => (Pkt::Puback(VAck { packet_id: 1, reason_code: 0x10, reason_string: Some(text()), ..Default::default() }), false),
+            16 => (Pkt::Pubrec(VAck { packet_id: 1, user_properties: one_up_name(), ..Default::default() }), false),
+            17 => (Pkt::Pubrel(VAck { packet_id: 1, user_properties: one_up_value(), ..Default::default() }), false),
+            18 => (Pkt::Pubcomp(VAck { packet_id: 1, reason_code: 0x92, reason_string: Some(text()), ..Default::default() }), false),
+            19 => (Pkt::Suback(VMultiAck { packet_id: 1, reason_string: Some(text()), reason_codes: vec![1], ..Default::default() }), false),
+            20 => (Pkt::Suback(VMultiAck { packet_id: 1, user_properties: one_up_value(), reason_codes: vec![2, 0x80], ..Default::default() }), false),
+            21 => (Pkt::Unsuback(VMultiAck { packet_id: 1, reason_string: Some(text()), reason_codes: vec![0x11], ..Default::default() }), false),
+            22 => (Pkt::Unsuback(VMultiAck { packet_id: 1, user_properties: one_up_name(), reason_codes: vec![0], ..Default::default() }), false),
+            23 => (Pkt::Disconnect(VDisconnect { reason_code: 0x8B, reason_string: Some(text()), ..Default::default() }), false),
+            24 => (Pkt::Disconnect(VDisconnect { reason_code: 0x9D, server_reference: Some(text()), ..Default::default() }), false),
+            _ => (Pkt::Disconnect(VDisconnect { reason_code: 0x00, user_properties: one_up_value(), ..Default::default() }), false),
+        };
+        if matches!(field, 5 | 11) && variant != 0 { return vec![]; }
+        vec![Case { pkt, v311, opts: EncodeOpts::default(), legal: true, sweep }]
+    }));
+    total
+}
+
+// ---------------------------------------------------------------------------------------------
+// base set (well-formed packets produced by the reference encoder)
+// ---------------------------------------------------------------------------------------------
+
+struct BasePacket { name: String, v311: bool, bytes: Vec<u8> }
+
+fn base_set(v311: bool) -> Vec<BasePacket> {
+    let mut out: Vec<BasePacket> = Vec::new();
+    let mut add = |name: &str, pkt: Pkt, form: u8| {
+        let bytes = refcodec::encode_with(&pkt, v311, &EncodeOpts { property_order: None, ack_form: form }).expect("base packet encodable");
+        out.push(BasePacket { name: format!("{}{}", name, if v311 { " (3.1.1)" } else { "" }), v311, bytes });
+    };
+    let ack = |id: u16, code: u8, rs: Option<&str>, n: usize| VAck { packet_id: id, reason_code: code, reason_string: rs.map(|x| x.to_string()), user_properties: ups(n, 1) };
+    if v311 {
+        add("connack accepted", Pkt::Connack(VConnack::default()), 0);
+        add("connack session present", Pkt::Connack(VConnack { session_present: true, ..Default::default() }), 0);
+        add("connack not authorized", Pkt::Connack(VConnack { reason_code: 0x87, ..Default::default() }), 0);
+        add("publish qos0", Pkt::Publish(VPublish { topic: "a/b".into(), payload: Some(b(3)), ..Default::default() }), 0);
+        add("publish qos1 retain", Pkt::Publish(VPublish { topic: "é".into(), qos: 1, packet_id: 10, retain: true, payload: Some(b(1)), ..Default::default() }), 0);
+        add("publish qos2 dup no payload", Pkt::Publish(VPublish { topic: "t".into(), qos: 2, packet_id: 65535, dup: true, ..Default::default() }), 0);
+        add("publish 200 byte payload", Pkt::Publish(VPublish { topic: "big".into(), qos: 1, packet_id: 2, payload: Some(b(200)), ..Default::default() }), 0);
+        add("publish 16400 byte payload", Pkt::Publish(VPublish { topic: "huge".into(), payload: Some(b(16400)), ..Default::default() }), 0);
+        add("puback", Pkt::Puback(ack(1, 0, None, 0)), 0);
+        add("pubrec", Pkt::Pubrec(ack(256, 0, None, 0)), 0);
+        add("pubrel", Pkt::Pubrel(ack(255, 0, None, 0)), 0);
+        add("pubcomp", Pkt::Pubcomp(ack(65535, 0, None, 0)), 0);
+        add("suback 4 codes", Pkt::Suback(VMultiAck { packet_id: 3, reason_codes: vec![0, 1, 2, 0x80], ..Default::default() }), 0);
+        add("unsuback", Pkt::Unsuback(VMultiAck { packet_id: 4, ..Default::default() }), 0);
+        add("pingresp", Pkt::Pingresp, 0);
+        add("disconnect", Pkt::Disconnect(VDisconnect::default()), 0);
+        return out;
+    }
+    add("connack success", Pkt::Connack(VConnack::default()), 0);
+    add("connack session present", Pkt::Connack(VConnack { session_present: true, ..Default::default() }), 0);
+    add("connack not authorized with reason string", Pkt::Connack(VConnack { reason_code: 0x87, reason_string: Some("no é".into()), ..Default::default() }), 0);
+    add("connack typical", Pkt::Connack(connack_with(0b0_0001_0010_0101_0110, false, 0)), 0);
+    add("connack every property", Pkt::Connack(connack_with((1 << CONNACK_PROPS) - 1, true, 0)), 0);
+    add("connack 200 byte reason string", Pkt::Connack(VConnack { reason_code: 0x80, reason_string: Some(s(200, 1)), ..Default::default() }), 0);
+    add("publish qos0", Pkt::Publish(VPublish { topic: "a/b".into(), payload: Some(b(3)), ..Default::default() }), 0);
+    add("publish qos1 retain", Pkt::Publish(VPublish { topic: "é".into(), qos: 1, packet_id: 10, retain: true, payload: Some(b(1)), ..Default::default() }), 0);
+    add("publish qos2 dup no payload", Pkt::Publish(VPublish { topic: "t".into(), qos: 2, packet_id: 65535, dup: true, ..Default::default() }), 0);
+    add("publish every property", Pkt::Publish(publish_with(PUBLISH_PROP_COMBOS - 1 - 3 * 2 * 2 * 2 * 2 * 1, 1, false, true, 5)), 0);
+    add("publish alias with empty topic", Pkt::Publish(VPublish { topic: String::new(), topic_alias: Some(2), payload: Some(b(2)), ..Default::default() }), 0);
+    add("publish subscription identifiers 127 128", Pkt::Publish(VPublish { topic: "s".into(), subscription_identifiers: Some(vec![127, 128]), payload: Some(b(2)), ..Default::default() }), 0);
+    add("publish 200 byte payload", Pkt::Publish(VPublish { topic: "big".into(), qos: 1, packet_id: 2, payload: Some(b(200)), ..Default::default() }), 0);
+    add("publish 16400 byte payload", Pkt::Publish(VPublish { topic: "huge".into(), payload: Some(b(16400)), ..Default::default() }), 0);
+    add("publish 130 byte content type", Pkt::Publish(VPublish { topic: "p".into(), content_type: Some(s(130, 2)), ..Default::default() }), 0);
+    add("puback short form", Pkt::Puback(ack(1, 0, None, 0)), 0);
+    add("puback no matching subscribers", Pkt::Puback(ack(2, 0x10, None, 0)), 0);
+    add("puback reason code without property length", Pkt::Puback(ack(3, 0x97, None, 0)), 3);
+    add("puback success with empty property length", Pkt::Puback(ack(4, 0, None, 0)), 2);
+    add("puback reason string and user properties", Pkt::Puback(ack(5, 0x80, Some("bad €"), 2)), 0);
+    add("pubrec short form", Pkt::Pubrec(ack(256, 0, None, 0)), 0);
+    add("pubrec unspecified error with reason string", Pkt::Pubrec(ack(6, 0x80, Some("x"), 0)), 0);
+    add("pubrel short form", Pkt::Pubrel(ack(255, 0, None, 0)), 0);
+    add("pubrel packet identifier not found", Pkt::Pubrel(ack(7, 0x92, None, 0)), 0);
+    add("pubcomp short form", Pkt::Pubcomp(ack(65535, 0, None, 0)), 0);
+    add("pubcomp not found with user property", Pkt::Pubcomp(ack(8, 0x92, None, 1)), 0);
+    add("suback one code", Pkt::Suback(VMultiAck { packet_id: 3, reason_codes: vec![1], ..Default::default() }), 0);
+    add("suback three codes, reason string, user properties", Pkt::Suback(VMultiAck { packet_id: 3, reason_string: Some("sub".into()), user_properties: ups(2, 1), reason_codes: vec![0, 2, 0x8F] }), 0);
+    add("suback 130 codes", Pkt::Suback(VMultiAck { packet_id: 3, reason_codes: (0..130).map(|i| (i % 3) as u8).collect(), ..Default::default() }), 0);
+    add("unsuback one code", Pkt::Unsuback(VMultiAck { packet_id: 4, reason_codes: vec![0], ..Default::default() }), 0);
+    add("unsuback three codes", Pkt::Unsuback(VMultiAck { packet_id: 4, reason_codes: vec![0, 0x11, 0x87], ..Default::default() }), 0);
+    add("unsuback reason string", Pkt::Unsuback(VMultiAck { packet_id: 4, reason_string: Some("uns é".into()), reason_codes: vec![0x80], ..Default::default() }), 0);
+    add("pingresp", Pkt::Pingresp, 0);
+    add("disconnect empty", Pkt::Disconnect(VDisconnect::default()), 0);
+    add("disconnect server shutting down, code only", Pkt::Disconnect(VDisconnect { reason_code: 0x8B, ..Default::default() }), 3);
+    add("disconnect normal with empty property length", Pkt::Disconnect(VDisconnect::default()), 2);
+    add("disconnect use another server", Pkt::Disconnect(VDisconnect { reason_code: 0x9C, reason_string: Some("move".into()), user_properties: ups(1, 1), server_reference: Some("other:1883".into()), session_expiry: None }), 0);
+    out
+}
+
+/// Positions (1..n-1) where cuts / mutations / truncations are applied: all of them for short streams,
+/// otherwise the first 13 and last 4 bytes of every packet plus the packet boundaries.
+fn positions(len: usize, bounds: &[(usize, usize)], all_up_to: usize) -> Vec<usize> {
+    if len <= all_up_to { return (1..len).collect(); }
+    let mut set = std::collections::BTreeSet::new();
+    for &(start, end) in bounds {
+        for k in 0..=13 { if start + k < end { set.insert(start + k); } }
+        for k in 0..=4 { if end >= k && end - k > start { set.insert(end - k); } }
+        set.insert(start); set.insert(end);
+    }
+    set.into_iter().filter(|p| *p >= 1 && *p < len).collect()
+}
+
+// ---------------------------------------------------------------------------------------------
+// (b) chunking invariance over streams of 1..3 well-formed packets
+// ---------------------------------------------------------------------------------------------
+
+fn chunking(ctx: &Ctx, tier: Tier, base: &[BasePacket], v311: bool, id_base: u64) -> Local {
+    let thorough = tier == Tier::Thorough;
+    let n = base.len();
+    let mut streams: Vec<Vec<usize>> = Vec::new();
+    for a in 0..n { streams.push(vec![a]); }
+    for a in 0..n { for b2 in 0..n { streams.push(vec![a, b2]); } }
+    let triple_pool: Vec<usize> = if thorough { (0..n).collect() } else { (0..n).filter(|i| base[*i].bytes.len() < 40).collect() };
+    for &a in &triple_pool { for &b2 in &triple_pool { for &c in &triple_pool { streams.push(vec![a, b2, c]); } } }
+    let all_up_to = if thorough { 96 } else { 40 };
+    let all_partitions_up_to = if thorough { 18 } else { 14 };
+
+    streams.par_iter().enumerate().fold(Local::default, |mut local, (stream_index, members)| {
+        let index = id_base + stream_index as u64;
+        let mut stream: Vec<u8> = Vec::new();
+        let mut bounds: Vec<(usize, usize)> = Vec::new();
+        for &m in members { let start = stream.len(); stream.extend_from_slice(&base[m].bytes); bounds.push((start, stream.len())); }
+        let len = stream.len();
+        local.evaluations += 1;
+        let Some(whole) = lib_decode(ctx, &mut local, v311, NO_LIMIT, &[&stream], index) else { return local; };
+        // the stream is well-formed: judge the unsplit result against the reference
+        judge(ctx, &mut local, &stream, v311, &whole, "well-formed", index);
+        let mut visited = vec![false; len + 1];
+        visited[0] = true; visited[len] = true;
+        let cuts = positions(len, &bounds, all_up_to);
+        for &a in &cuts { check_chunking(ctx, &mut local, v311, &stream, &whole, &split(&stream, &[a]), "well-formed", index, Some(&mut visited)); }
+        for (i, &a) in cuts.iter().enumerate() { for &b2 in &cuts[i + 1..] { check_chunking(ctx, &mut local, v311, &stream, &whole, &split(&stream, &[a, b2]), "well-formed", index, Some(&mut visited)); } }
+        // 1-byte reads and uniform sizes (1-byte reads of the 16 KB packets only for single / double streams in the quick tier)
+        if len <= 20_000 || members.len() < 3 || thorough { check_chunking(ctx, &mut local, v311, &stream, &whole, &ones(&stream), "well-formed", index, Some(&mut visited)); }
+        for size in 2..=8usize { let chunks: Vec<&[u8]> = stream.chunks(size).collect(); check_chunking(ctx, &mut local, v311, &stream, &whole, &chunks, "well-formed", index, Some(&mut visited)); }
+        if len <= all_partitions_up_to {
+            for mask in 0u32..(1u32 << (len - 1)) {
+                let cut_list: Vec<usize> = (1..len).filter(|p| mask & (1 << (p - 1)) != 0).collect();
+                check_chunking(ctx, &mut local, v311, &stream, &whole, &split(&stream, &cut_list), "well-formed", index, Some(&mut visited));
+            }
+            local.add("streams_with_all_partitions", 1);
+        }
+        local.states += visited.iter().filter(|v| **v).count() as u64;
+        local.add("streams_checked", 1);
+        if stream_index == n + 3 { ctx.samples.lock().unwrap().push(json!({"part": "chunking", "mqtt311": v311, "stream": members.iter().map(|m| base[*m].name.clone()).collect::<Vec<_>>(), "stream_hex": hex(&stream, 64), "cut_positions": clip(&format!("{:?}", cuts), 200)})); }
+        local
+    }).reduce(Local::default, Local::merge)
+}
+
+// ---------------------------------------------------------------------------------------------
+// (c) hostile bytes
+// ---------------------------------------------------------------------------------------------
+
+/// whole, 1-byte reads, every single split (short strings) — same verdict required; whole judged against the reference
+fn hostile_one(ctx: &Ctx, local: &mut Local, v311: bool, stream: &[u8], kind: &'static str, index: u64, single_splits: bool) {
+    local.evaluations += 1;
+    let Some(whole) = lib_decode(ctx, local, v311, NO_LIMIT, &[stream], index) else { return; };
+    judge(ctx, local, stream, v311, &whole, kind, index);
+    if stream.len() >= 2 {
+        check_chunking(ctx, local, v311, stream, &whole, &ones(stream), kind, index, None);
+        if single_splits && stream.len() >= 3 { for cut in 1..stream.len() { check_chunking(ctx, local, v311, stream, &whole, &split(stream, &[cut]), kind, index, None); } }
+    }
+    // every read boundary 0..=len is visited by the 1-byte run (up to the verdict)
+    local.states += stream.len() as u64 + 1;
+}
+
+fn hostile_strings(ctx: &Ctx, tier: Tier) -> Local {
+    let _ = tier;
+    let max_len = 3;
+    let mut total = Local::default();
+    // lengths 0..=2 : one work item per (version, first byte)
+    total = total.merge((0..512u32).into_par_iter().fold(Local::default, |mut local, item| {
+        let v311 = item >= 256;
+        let first = (item & 0xFF) as u8;
+        if first == 0 { hostile_one(ctx, &mut local, v311, &[], "arbitrary-bytes", 0, true); local.add("hostile_strings_checked", 1); }
+        hostile_one(ctx, &mut local, v311, &[first], "arbitrary-bytes", 1 + first as u64, true);
+        local.add("hostile_strings_checked", 1);
+        for second in 0..=255u8 { hostile_one(ctx, &mut local, v311, &[first, second], "arbitrary-bytes", 1000 + ((first as u64) << 8 | second as u64), true); local.add("hostile_strings_checked", 1); }
+        local
+    }).reduce(Local::default, Local::merge));
+    if max_len >= 3 {
+        total = total.merge((0..(2u32 * 65536)).into_par_iter().fold(Local::default, |mut local, item| {
+            let v311 = item >= 65536;
+            let first = ((item >> 8) & 0xFF) as u8;
+            let second = (item & 0xFF) as u8;
+            for third in 0..=255u8 { hostile_one(ctx, &mut local, v311, &[first, second, third], "arbitrary-bytes", 100_000 + (((first as u64) << 16) | ((second as u64) << 8) | third as u64), true); }
+            local.add("hostile_strings_checked", 256);
+            local
+        }).reduce(Local::default, Local::merge));
+    }
+    if tier == Tier::Thorough {
+        // length 4, first byte restricted to the fixed-header bytes a server may legally send (all complete 4-byte packets live here)
+        let mut firsts: Vec<u8> = vec![0x20, 0x40, 0x50, 0x62, 0x70, 0x90, 0xB0, 0xD0, 0xE0];
+        for flags in 0..16u8 { if flags & 0x06 != 0x06 && !(flags & 0x08 != 0 && flags & 0x06 == 0) { firsts.push(0x30 | flags); } }
+        let items: Vec<(bool, u8, u8)> = [false, true].iter().flat_map(|v| firsts.iter().flat_map(move |f| (0..=255u8).map(move |s2| (*v, *f, s2)))).collect();
+        total = total.merge(items.par_iter().fold(Local::default, |mut local, (v311, first, second)| {
+            for third in 0..=255u8 { for fourth in 0..=255u8 {
+                hostile_one(ctx, &mut local, *v311, &[*first, *second, third, fourth], "arbitrary-bytes", 200_000_000 + (((*first as u64) << 24) | ((*second as u64) << 16) | ((third as u64) << 8) | fourth as u64), true);
+            } }
+            local.add("hostile_strings_checked", 65536);
+            local.add("hostile_strings_of_length_4_with_server_first_byte", 65536);
+            local
+        }).reduce(Local::default, Local::merge));
+    }
+    total
+}
+
+fn mutants(ctx: &Ctx, tier: Tier, base: &[BasePacket], id_base: u64) -> Local {
+    let all_up_to = if tier == Tier::Thorough { 400 } else { 120 };
+    // work items: (packet, position)
+    let mut items: Vec<(usize, usize)> = Vec::new();
+    for (pi, packet) in base.iter().enumerate() {
+        items.push((pi, 0));
+        for position in positions(packet.bytes.len(), &[(0, packet.bytes.len())], all_up_to) { items.push((pi, position)); }
+    }
+    items.par_iter().enumerate().fold(Local::default, |mut local, (item_index, (pi, position))| {
+        let packet = &base[*pi];
+        let index = id_base + (item_index as u64) * 512;
+        let mut mutant = packet.bytes.clone();
+        let original = mutant[*position];
+        for value in 0..=255u8 {
+            if value == original { continue; }
+            mutant[*position] = value;
+            hostile_one(ctx, &mut local, packet.v311, &mutant, "mutated", index + value as u64, false);
+            local.add("mutants_checked", 1);
+        }
+        // truncation to `position` bytes (position 0 = empty stream is covered by the string sweep)
+        if *position > 0 {
+            hostile_one(ctx, &mut local, packet.v311, &packet.bytes[..*position], "truncated", index + 300, false);
+            local.add("truncations_checked", 1);
+        }
+        if item_index == 7 { ctx.samples.lock().unwrap().push(json!({"part": "mutants", "packet": packet.name, "position": position, "original_hex": hex(&packet.bytes, 32), "example_mutant_hex": hex(&mutant, 32)})); }
+        local
+    }).reduce(Local::default, Local::merge)
+}
+
+// ---------------------------------------------------------------------------------------------
+// (d) maximum packet size is enforced when the fixed header is complete
+// ---------------------------------------------------------------------------------------------
+
+fn total_size(remaining: u32) -> u64 { 1 + refcodec::vbi_encode(remaining).map(|v| v.len()).unwrap_or(4) as u64 + remaining as u64 }
+
+fn size_rule(ctx: &Ctx) -> Local {
+    let limits: [u32; 6] = [1, 2, 5, 127, 128, 16384];
+    let mut first_bytes: Vec<u8> = Vec::new();
+    for t in 2..=14u8 { first_bytes.push(t << 4); if matches!(t, 6 | 8 | 10) { first_bytes.push(t << 4 | 2); } if t == 3 { for f in 1..16u8 { first_bytes.push(0x30 | f); } } }
+    let mut local = Local::default();
+    for &limit in &limits {
+        // remaining lengths whose total size is: the largest <= M, the two smallest > M, about 2M, the protocol maximum
+        let mut at_limit: Option<u32> = None;
+        let mut over: Vec<u32> = Vec::new();
+        for remaining in 0..=(2 * limit + 8) {
+            let size = total_size(remaining);
+            if size <= limit as u64 { at_limit = Some(remaining); } else if over.len() < 2 { over.push(remaining); }
+        }
+        over.push((2 * limit).max(over[1] + 1));
+        over.push(268_435_455);
+        for v311 in [false, true] {
+            for &first in &first_bytes {
+                let mut cases: Vec<(u32, bool)> = over.iter().map(|r| (*r, true)).collect();
+                if let Some(r) = at_limit { cases.push((r, false)); }
+                for (remaining, must_reject) in cases {
+                    let mut header = vec![first];
+                    header.extend(refcodec::vbi_encode(remaining).unwrap());
+                    let index = ((limit as u64) << 32) | ((first as u64) << 8) | must_reject as u64;
+                    local.evaluations += 1;
+                    let Some(outcome) = lib_decode(ctx, &mut local, v311, limit, &ones(&header), index) else { continue; };
+                    local.states += header.len() as u64 + 1;
+                    local.add("size_rule_headers_checked", 1);
+                    if must_reject {
+                        if outcome.error.is_none() {
+                            ctx.findings.simple("C03", &format!("size limit not enforced at header time M={}", limit), (header.len(), index), || {
+                                (format!("maximum packet size {}: fixed header {} announces a packet of {} bytes, fed byte by byte: no error after the last header byte (mqtt311={})", limit, hex(&header, 8), total_size(remaining), v311),
+                                 json!({"kind": "codec-decode", "mqtt311": v311, "maximum_packet_size": limit, "stream_hex": hex(&header, 8), "chunk_sizes": vec![1; header.len()], "expected": "error once the last fixed header byte is fed", "got": "no error"}))
+                            });
+                        } else if outcome.chunks_consumed < header.len() { local.add("size_rule_rejected_before_header_complete", 1); }
+                    } else {
+                        // a remaining length of 0 completes the packet: only server-to-client packets that may be empty (PINGRESP, DISCONNECT) are judged
+                        if remaining == 0 && !matches!(first, 0xD0 | 0xE0) { local.add("size_rule_at_limit_not_judged_empty_body_illegal", 1); continue; }
+                        if outcome.error.is_some() {
+                            ctx.findings.simple("C03", &format!("packet of exactly the maximum size rejected by its header M={}", limit), (header.len(), index), || {
+                                (format!("maximum packet size {}: fixed header {} announces {} bytes (within the limit) but the decoder reports {:?} (mqtt311={})", limit, hex(&header, 8), total_size(remaining), outcome.error, v311),
+                                 json!({"kind": "codec-decode", "mqtt311": v311, "maximum_packet_size": limit, "stream_hex": hex(&header, 8), "chunk_sizes": vec![1; header.len()], "expected": "no error", "got": format!("{:?}", outcome.error)}))
+                            });
+                        }
+                    }
+                }
+            }
+        }
+    }
+    local
+}
+
+// ---------------------------------------------------------------------------------------------
+
+pub fn run(tier: Tier) -> i32 {
+    let mut report = Report::new("C03", tier, "model_checking");
+    let ctx = Ctx { findings: Findings::default(), distinct: DistinctSet::default(), samples: Mutex::new(Vec::new()), notes: Mutex::new(BTreeMap::new()) };
+    let pool = rayon::ThreadPoolBuilder::new().num_threads(threads()).build().unwrap();
+    let base5 = base_set(false);
+    let base3 = base_set(true);
+    let mut walls: BTreeMap<&'static str, f64> = BTreeMap::new();
+    let mut timed = |name: &'static str, f: &mut dyn FnMut() -> Local| -> Local { let t = std::time::Instant::now(); let l = f(); walls.insert(name, (t.elapsed().as_secs_f64() * 100.0).round() / 100.0); l };
+
+    let a = timed("faithfulness", &mut || pool.install(|| faithfulness(&ctx, tier)));
+    let b5 = timed("chunking_v5", &mut || pool.install(|| chunking(&ctx, tier, &base5, false, 1 << 40)));
+    let b3 = timed("chunking_v311", &mut || pool.install(|| chunking(&ctx, tier, &base3, true, 2 << 40)));
+    let c1 = timed("hostile_strings", &mut || pool.install(|| hostile_strings(&ctx, tier)));
+    let c2 = timed("mutants_v5", &mut || pool.install(|| mutants(&ctx, tier, &base5, 3 << 40)));
+    let c3 = timed("mutants_v311", &mut || pool.install(|| mutants(&ctx, tier, &base3, 4 << 40)));
+    let d = timed("size_rule", &mut || size_rule(&ctx));
+
+    let part_counts = |l: &Local| json!({"decoder_executions": l.executions, "chunks_fed": l.chunks_fed, "read_boundaries_visited": l.states, "cases": l.evaluations});
+    let parts = json!({"faithfulness": part_counts(&a), "chunking_mqtt5": part_counts(&b5), "chunking_mqtt311": part_counts(&b3), "hostile_strings": part_counts(&c1), "mutants_mqtt5": part_counts(&c2), "mutants_mqtt311": part_counts(&c3), "size_rule": part_counts(&d)});
+    let total = a.merge(b5).merge(b3).merge(c1).merge(c2).merge(c3).merge(d);
+    ctx.distinct.merge(&total.distinct);
+
+    report.set("engine", json!("real incremental decoder (Decoder::decode_bytes through the verif facade); inputs from the independent reference encoder, verdicts against the strict reference decoder"));
+    report.set("states", json!(total.states));
+    report.set("transitions", json!(total.chunks_fed));
+    report.set("traces_validated_against_impl", json!(total.executions));
+    report.set("evaluations", json!(total.evaluations));
+    report.set("distinct_nontrivial", json!(ctx.distinct.len()));
+    report.set("rule", json!("state = (stream, bytes consumed at a read boundary), transition = one chunk fed, trace = one execution of a fresh decoder over one partition of one stream. Streams are enumerated, not sampled: reference encodings over mixed-radix products (a), all 1/2/3-packet concatenations of the base set under the listed partitions (b), every byte string up to the tier's length and every single-byte substitution / truncation at the listed positions (c), fixed headers around each size limit (d). distinct_nontrivial counts distinct (version, decoded packets, error kind) outcomes with at least one packet or an error, by hash set."));
+    report.set("exhaustive", json!(true));
+    report.set("exhaustive_scope", json!("every enumeration named in `rule` and `bounds` is complete (nothing is capped by time or count). Bounded by design: streams longer than the `all positions` threshold are cut / mutated / truncated only at the first 13 and last 4 bytes of each packet and at packet boundaries; CONNACK presence is the full 2^17 only in the thorough tier; permutations are complete up to the stated property count, rotations + reversal above"));
+    report.set("bounds", json!({
+        "hostile_string_max_len": if tier == Tier::Thorough { "3, plus every 4-byte string whose first byte is a legal server-to-client fixed header byte" } else { "3" }, "all_permutations_up_to_properties": if tier == Tier::Thorough { 6 } else { 5 },
+        "all_cut_positions_up_to_stream_len": if tier == Tier::Thorough { 96 } else { 40 }, "all_partitions_up_to_stream_len": if tier == Tier::Thorough { 18 } else { 14 },
+        "all_mutation_positions_up_to_packet_len": if tier == Tier::Thorough { 400 } else { 120 }, "base_set_mqtt5": base5.len(), "base_set_mqtt311": base3.len(),
+        "triples": if tier == Tier::Thorough { "all ordered triples of the base set" } else { "ordered triples of the short (< 40 byte) packets of the base set" },
+    }));
+    report.set("parts", parts);
+    report.set("wall_by_part_s", json!(walls));
+    let count = |k: &str| total.counts.get(k).copied().unwrap_or(0);
+    for key in ["reason_codes_checked", "permutations_checked", "partitions_checked", "hostile_strings_checked", "mutants_checked"] { report.set(key, json!(count(key))); }
+    report.set("lenient_categories", json!(total.lenient));
+    report.set("reference_rejects_while_library_still_waits", json!(total.waits));
+    let other: BTreeMap<&str, u64> = total.counts.iter().filter(|(k, _)| !["reason_codes_checked", "permutations_checked", "partitions_checked", "hostile_strings_checked", "mutants_checked"].contains(*k)).map(|(k, v)| (*k, *v)).collect();
+    report.set("counts", json!(other));
+    report.set("notes", json!(*ctx.notes.lock().unwrap()));
+    report.set("base_set", json!(base5.iter().chain(base3.iter()).map(|p| format!("{} [{} bytes]", p.name, p.bytes.len())).collect::<Vec<_>>()));
+    let mut samples = ctx.samples.lock().unwrap().clone();
+    samples.push(json!({"part": "size rule", "maximum_packet_size": 127, "header_fed_byte_by_byte_hex": "307e / 307f / 30fe01", "expectation": "307e (total 128) and above must be rejected once the last header byte is in; 307d (total 127) must not"}));
+    report.set("samples", json!(samples));
+    let counts = ctx.findings.flush(&mut report);
+    report.set("failing_inputs_by_signature", counts);
+
+    report.assume("reference codec (mc/src/refcodec) is trusted: written from the OASIS texts, self-tested; its strictness calls are listed in its module documentation");
+    report.assume("a server does not send Session Expiry Interval in DISCONNECT, DUP with QoS 0, or client-to-server packet types: those are not in the faithfulness quantifier (they appear in the hostile sweeps)");
+    report.assume("library more lenient than the reference (accepts a malformed packet) is counted in lenient_categories, not a violation: the property demands error-or-wait and no panic for malformed input, not rejection");
+    report.assume("maximum packet size 0 means 'no limit' to the decoder and is not part of the size rule check; the no-limit runs use 268435460 (largest legal packet)");
+    report.finish()
+}
